@@ -24,6 +24,28 @@ pub enum PAct {
     UnpausePermissionless,
     Propagate,
     Tick(i64),
+    /// the global fee admin passes its role to a second key it controls (and that key passes it back)
+    HandOver,
+    /// the global fee admin edits the other global fee settings, keeping the role
+    EditSettings,
+}
+
+fn second_admin() -> solana_program::pubkey::Pubkey {
+    world::key("P:second_global_fee_admin")
+}
+
+/// the key that currently holds the global fee admin role
+fn admin_now(s: &Store) -> solana_program::pubkey::Pubkey {
+    world::fee_state(s).global_fee_admin
+}
+
+fn edit_tx(s: &Store, new_admin: solana_program::pubkey::Pubkey, bump_fee: bool) -> Tx {
+    let fs = world::fee_state(s);
+    let cur = fs.global_fee_admin;
+    Tx::one(
+        ix::edit_global_fee_state(cur, new_admin, fs.global_fee_wallet, fs.bank_init_flat_sol_fee + bump_fee as u32, fs.liquidation_flat_sol_fee, fs.program_fee_fixed, fs.program_fee_rate, fs.liquidation_max_fee),
+        &[cur],
+    )
 }
 
 #[derive(Clone)]
@@ -110,7 +132,7 @@ impl Model for PModel {
     fn key(&self, st: &PState) -> Key {
         let v = view(&st.s, &self.w);
         let mut h = blake3::Hasher::new();
-        h.update(&[v.flag as u8, v.daily, v.consecutive, v.cflag as u8, st.pauses_in_window, st.devs]);
+        h.update(&[v.flag as u8, v.daily, v.consecutive, v.cflag as u8, st.pauses_in_window, st.devs, (admin_now(&st.s) == self.w.fee_admin) as u8]);
         // clipping is exact: guards compare x only with 0 and 1800 (and the extension arithmetic moves
         // it by 1800), y only with 86400
         let x = if v.flag { clip(v.x, -2 * PAUSE - 2, PAUSE + 2) } else { 0 };
@@ -123,7 +145,7 @@ impl Model for PModel {
     }
 
     fn actions(&self, st: &PState) -> Vec<PAct> {
-        let mut v = vec![PAct::Pause, PAct::Unpause, PAct::UnpausePermissionless, PAct::Propagate, PAct::Tick(600)];
+        let mut v = vec![PAct::Pause, PAct::Unpause, PAct::UnpausePermissionless, PAct::Propagate, PAct::Tick(600), PAct::HandOver, PAct::EditSettings];
         if st.devs < self.max_devs {
             v.push(PAct::Tick(1));
             v.push(PAct::Tick(599));
@@ -148,11 +170,13 @@ impl Model for PModel {
                 (0u64, true)
             }
             PAct::Pause => {
-                let r = process_tx(&mut s, &Tx::one(ix::panic_pause(w.fee_admin), &[w.fee_admin]));
+                let adm = admin_now(&s);
+                let r = process_tx(&mut s, &Tx::one(ix::panic_pause(adm), &[adm]));
                 (r.code(), r.ok())
             }
             PAct::Unpause => {
-                let r = process_tx(&mut s, &Tx::one(ix::panic_unpause(w.fee_admin), &[w.fee_admin]));
+                let adm = admin_now(&s);
+                let r = process_tx(&mut s, &Tx::one(ix::panic_unpause(adm), &[adm]));
                 (r.code(), r.ok())
             }
             PAct::UnpausePermissionless => {
@@ -162,6 +186,17 @@ impl Model for PModel {
             }
             PAct::Propagate => {
                 let r = process_tx(&mut s, &Tx::one(ix::propagate_fee_state(w.group), &[act::stranger()]));
+                (r.code(), r.ok())
+            }
+            PAct::HandOver => {
+                let to = if admin_now(&s) == w.fee_admin { second_admin() } else { w.fee_admin };
+                let tx = edit_tx(&s, to, false);
+                let r = process_tx(&mut s, &tx);
+                (r.code(), r.ok())
+            }
+            PAct::EditSettings => {
+                let tx = edit_tx(&s, admin_now(&s), true);
+                let r = process_tx(&mut s, &tx);
                 (r.code(), r.ok())
             }
         };
@@ -186,7 +221,7 @@ impl Model for PModel {
                     }
                     pauses = 1;
                 } else {
-                    pauses += 1;
+                    pauses = (pauses + 1).min(5); // saturates: beyond the bound the count only repeats the violation
                 }
                 if pauses > 3 {
                     violations.push(Violation { clause: "C15.max_three_pauses_per_window".into(), detail: format!("{} pauses succeeded since the last daily reset", pauses) });
@@ -215,6 +250,15 @@ impl Model for PModel {
                     violations.push(Violation { clause: "C15.propagation_copies_pause_state".into(), detail: format!("after propagation the group's copy says paused={} since {} s, the global state paused={} since {} s", post.cflag, post.cx, post.flag, post.x) });
                 }
             }
+            PAct::HandOver | PAct::EditSettings => {
+                // the limits bind the role, not a key: whoever holds it next inherits what was spent
+                if committed && (post.flag != pre.flag || post.daily != pre.daily || post.consecutive != pre.consecutive || post.start != pre.start || post.last_reset != pre.last_reset) {
+                    violations.push(Violation { clause: "C15.limits_bind_the_role".into(), detail: format!("editing the global fee settings changed the pause machine: flag {}->{}, daily count {}->{}, consecutive {}->{}, start {}->{}, last reset {}->{}", pre.flag, post.flag, pre.daily, post.daily, pre.consecutive, post.consecutive, pre.start, post.start, pre.last_reset, post.last_reset) });
+                }
+                if !committed {
+                    tags.push("refused");
+                }
+            }
             PAct::UnpausePermissionless => {
                 if pre.flag && pre.x >= PAUSE {
                     tags.push("expired");
@@ -235,6 +279,8 @@ impl Model for PModel {
                 PAct::Unpause => "unpause",
                 PAct::UnpausePermissionless => "unpause_permissionless",
                 PAct::Propagate => "propagate",
+                PAct::HandOver => "hand_over",
+                PAct::EditSettings => "edit_settings",
                 PAct::Tick(d) if d % 600 == 0 => "tick_grid",
                 PAct::Tick(_) => "tick_offgrid",
             },
@@ -308,7 +354,7 @@ pub fn run(tier: Tier) -> Outcome {
     // hard guards: outcomes the harness itself must be able to produce; soft ones depend on the
     // program's pause policy and are only reported
     let hit = |req: &str| rep.classes.iter().any(|(k, v)| *v > 0 && class_matches(k, req));
-    for req in ["pause:ok", "unpause:ok", "propagate:ok", "tick_offgrid:ok", "tick_grid:ok"] {
+    for req in ["pause:ok", "unpause:ok", "propagate:ok", "tick_offgrid:ok", "tick_grid:ok", "hand_over:ok", "edit_settings:ok"] {
         if !hit(req) {
             o.machinery.push(format!("vacuity guard: outcome class '{}' was never exercised", req));
         }
@@ -324,7 +370,7 @@ pub fn run(tier: Tier) -> Outcome {
         "traces_validated_against_impl": rep.transitions,
         "evaluations": rep.transitions,
         "distinct_nontrivial": rep.classes.len(),
-        "rule": "all reachable time-abstract states of the pause machine (flags, counters, now-start, now-last_reset, cached flag and start; clipped beyond the guards' constants) under pause/unpause/permissionless-unpause/propagate and time ticks of 600 s, plus at most k one-second off-grid ticks per path (k=1 quick, 4 thorough); searched to the fixpoint; each transition is the real instruction through marginfi::entry; a battery of user probes (deposit, withdraw, close-balance of an empty position) is evaluated in every state and 3600 s later",
+        "rule": "all reachable time-abstract states of the pause machine (flags, counters, now-start, now-last_reset, cached flag and start; clipped beyond the guards' constants) under pause/unpause/permissionless-unpause/propagate, the global fee admin handing its role to a second key and back (pause / unpause are signed by whoever holds the role), an edit of the other global fee settings, and time ticks of 600 s, plus at most k one-second off-grid ticks per path (k=1 quick, 4 thorough); searched to the fixpoint; each transition is the real instruction through marginfi::entry; a battery of user probes (deposit, withdraw, close-balance of an empty position) is evaluated in every state and 3600 s later",
         "exhaustive": rep.exhaustive,
         "layers": rep.states_per_layer.len(),
         "max_offgrid_deviations": m.max_devs,
